@@ -171,6 +171,14 @@ def np_svd(ex, st, node, args, kw):
     k = z3.If(p <= r, p, r)
     from .libz import kind_join, kind_of
     kd = kind_join(kind_of(a), 'real')
+    if TRACK_VALUES[0]:
+        info = dict(B=a, p=p, r=r, k=k, svd=True)
+        us = SArr((p, k), kd, fresh_nz('nzus'), val=fresh_val('us'), origin=('lapack', info))
+        vs = SArr((k, r), kd, fresh_nz('nzvs'), val=fresh_val('vs'), origin=('lapack', info))
+        info.update(Q=us, R=vs)
+        a_, b_ = z3.Ints('a_ b_')
+        st.pc += [z3.ForAll([a_, b_], z3.Implies(us.val(a_, b_) != 0, us.nz(a_, b_))), z3.ForAll([a_, b_], z3.Implies(vs.val(a_, b_) != 0, vs.nz(a_, b_)))]
+        return (us, ZArr((k,), 'real'), vs)
     return (SArr((p, k), kd, fresh_nz('nzus')), ZArr((k,), 'real'), SArr((k, r), kd, fresh_nz('nzvs')))
 
 def np_norm(ex, st, node, args, kw):
@@ -474,6 +482,10 @@ def run_contract(fn, with_tol, kind='complex'):
         v.confirm = [fn.split('.')[-1]]
         out.append(v)
     tot = time.time() - t0
+    if any(v.kind == 'invariant' and v.status != 'discharged' for v in out):
+        for v in out:
+            if v.kind == 'ensures' and v.status == 'discharged':
+                v.status = 'undecided'; v.detail = 'follows from the loop invariant, which is not established on this tree'
     for v in out:
         v.seconds = tot / max(1, len(out))
         v.name = f'{v.name} [entries: {kind}]'
